@@ -141,7 +141,7 @@ pub fn family(tier: Tier) -> Vec<TrainCfg> {
     let users: Vec<Vec<&str>> = vec![
         vec![],
         vec!["ac,0,0,0,N,x\nca,0,0,0,V,new\n"],
-        vec!["ac,1,1,77,N,x\n"],
+        vec!["ac,1,1,77,N,x\nad,0,1,5,N,x\nae,2,0,-5,V,y\n"],
         vec!["ac,0,0,0,N,x\n\"c\rc\",0,0,0,N,x\n", "\"x,y\",1,2,-5,Q,q\nbb,0,0,0,V,y\n"],
         // the same feature string on surfaces of different character categories
         vec!["ac,0,0,0,N,x\nあc,0,0,0,N,x\n c,0,0,0,N,x\n\"ccccccccccccccccccccccccccccccccccccc,a\",0,0,0,P,x\n\"cccccccccccccccccccccccccccccccccccbc,b\",2,1,9,P,x\n"],
@@ -1246,6 +1246,37 @@ pub fn run_family(which: Which, tier: Tier, st: &mut Stats, kf: &[KnownFinding])
                     st.count("models_exported_before_reading_user_lexicons");
                     ok = check_c16_ordered(cfg, &mut m0, kf, st, "exported, then user lexicons read, bigram files written first", true);
                 }
+            }
+        }
+        // a user lexicon that is REJECTED (a valid 0,0,0 row, an explicit row, then a malformed
+        // record) must leave the model as it was: the files generated afterwards are the same
+        if ok && which != Which::C18 && (tier == Tier::Thorough || i % 3 == 0) {
+            let before = (generate(&mut m), gen_bigram(&mut m));
+            let bad = "rejected-a,0,0,0,N,x\nrejected-b,1,1,7,V,y\nbroken,1\n";
+            let r = guard(|| m.read_user_lexicon(bad.as_bytes()));
+            st.states += 1;
+            st.transitions += 1;
+            st.count("rejected_user_lexicons");
+            let after = (generate(&mut m), gen_bigram(&mut m));
+            let same = match (&before, &after) {
+                ((Ok(a), Ok(b)), (Ok(c), Ok(d))) => a.lex == c.lex && a.matrix == c.matrix && a.unk == c.unk && a.user == c.user && b.left == d.left && b.right == d.right && {
+                    let (mut x, mut y): (Vec<&str>, Vec<&str>) = (b.cost.lines().collect(), d.cost.lines().collect());
+                    x.sort();
+                    y.sort();
+                    x == y
+                },
+                ((Err(_), _), (Err(_), _)) | ((_, Err(_)), (_, Err(_))) => true,
+                _ => false,
+            };
+            if !matches!(r, Ok(Err(_))) || !same {
+                st.violation(Finding {
+                    class: if matches!(r, Ok(Err(_))) { "rejected-user-lexicon-changes-the-model".into() } else { "malformed-user-lexicon-not-rejected".into() },
+                    what: format!("read_user_lexicon with a malformed file returned {:?}; generated files {} afterwards [{}]", r.as_ref().map(|x| x.as_ref().map_err(|e| e.to_string())), if same { "unchanged" } else { "CHANGED" }, cfg.name),
+                    replay: json!({"kind": "trained_model", "config": cfg.describe(), "rejected_user_lexicon": bad}),
+                });
+                ok = false;
+            } else if which == Which::C16 {
+                ok = check_c16(cfg, &mut m, kf, st, "after a rejected user lexicon");
             }
         }
         // C16: a model saved WITH its user lexicons and reloaded (the reloaded model still holds the
